@@ -21,3 +21,5 @@ import Skv.Props.C17
 #print axioms PState.run_append
 #print axioms C17_effective_steps_bounded
 #print axioms C17_all_calls_return
+#print axioms C17_stall_has_work_scheduled
+#print axioms C17_checkpoints_without_wake_stall_for_good
